@@ -80,6 +80,7 @@ class ArrayAppendFault(AH.ArrayHistory):
                 fault['pos'] = 0
             else:
                 fault['pos'] = rng.randint(0, n)
+            fault['empty_bad'] = rng.random() < 0.25
         elif kind == 'efbig_kernel':
             fault['chunk'] = rng.randint(0, max(0, n - 1))
             fault['where'] = rng.choice(WHERE)
@@ -187,13 +188,17 @@ class _FState(AH._State):
             exps.append(e)
         return objs, exps
 
-    def bad_object(self, kind):
+    def bad_object(self, kind, empty=False):
         m = self.model
         if kind == 'iter_badshape':
             tr = list(m.shape[1:])
             tr = (tr[:-1] + [tr[-1] + 1]) if tr else [2]
+            if empty:      # a chunk without elements can be incompatible too: (0, k+1) for trailing shape (k,)
+                return np.zeros(([0] + tr) if m.ndim > 1 else [3, 0], dtype=m.dtype)
             return np.zeros([2] + tr, dtype=m.dtype)
         if kind == 'iter_badrank':
+            if empty:
+                return np.zeros([3] + list(m.shape[1:]) + [0], dtype=m.dtype)
             return np.zeros([2] + list(m.shape[1:]) + [2], dtype=m.dtype)
         if kind == 'iter_unconvertible':
             return ['x', 'y'] if m.ndim == 1 else [['x'] * m.shape[1]] if m.ndim == 2 else object()
@@ -224,7 +229,9 @@ class _FState(AH._State):
             if kind == 'iter_raise':
                 raise_at = pos
             else:
-                objs = objs[:pos] + [self.bad_object(kind)] + objs[pos:]
+                objs = objs[:pos] + [self.bad_object(kind, empty=bool(f.get('empty_bad')))] + objs[pos:]
+                if f.get('empty_bad'):
+                    self.probe('bad_chunk_without_elements')
             expect_j, must_raise = pos, True
         elif kind == 'efbig_kernel':
             if n == 0:
@@ -434,6 +441,7 @@ class RaggedAppendFault(RH.RaggedHistory):
                 fault['pos'] = 0
             else:
                 fault['pos'] = rng.randint(0, n)
+            fault['empty_bad'] = rng.random() < 0.25
         elif kind == 'index_overflow':
             fault['pos'] = rng.randint(0, max(0, n - 1))
         elif kind.startswith('efbig'):
@@ -530,12 +538,16 @@ class _RFState(RH._RState):
             op = dict(op, items=[dict(op['items'][0], vseed=k) for k in range(op['nitems'])])
         return super().do_create(op)
 
-    def bad_obj(self, kind):
+    def bad_obj(self, kind, empty=False):
         atom = list(self.atom)
         if kind == 'iter_badshape':
             tr = (atom[:-1] + [atom[-1] + 1]) if atom else [2]
+            if empty:
+                return np.zeros(([0] + tr) if atom else [3, 0], dtype=self.dtype)
             return np.zeros([2] + tr, dtype=self.dtype)
         if kind == 'iter_badrank':
+            if empty:
+                return np.zeros([3] + atom + [0], dtype=self.dtype)
             return np.zeros([2] + atom + [2], dtype=self.dtype)
         if kind == 'iter_unconvertible':
             return ['x', 'y'] if not atom else object()
@@ -585,7 +597,9 @@ class _RFState(RH._RState):
             if kind == 'iter_raise':
                 raise_at = pos
             else:
-                objs = objs[:pos] + [self.bad_obj(kind)] + objs[pos:]
+                objs = objs[:pos] + [self.bad_obj(kind, empty=bool(f.get('empty_bad')))] + objs[pos:]
+                if f.get('empty_bad'):
+                    self.probe('bad_item_without_elements')
             expect_j, must_raise = pos, True
         elif kind == 'index_overflow':
             if cap is None or n == 0:
